@@ -244,8 +244,12 @@ def finish_check(pid, tier, prop, base_seed, cfg, aggs, dead, t0, nworkers, scra
     extra_cov = getattr(prop, 'extra_coverage', None)
     if extra_cov:
         evidence['coverage'].update(extra_cov(evidence['coverage']))
-    os.makedirs(os.path.join(ROOT, 'evidence'), exist_ok=True)
-    with open(os.path.join(ROOT, 'evidence', f'{pid}.json'), 'w') as f:
+    # evidence describes runs against /repo itself; trials against a scratch copy (VERIF_REPO) go elsewhere
+    scratch_target = os.path.realpath(os.environ.get('VERIF_REPO', '/repo')) != os.path.realpath('/repo')
+    ev_dir = os.path.join(ROOT, 'evidence-scratch' if scratch_target else 'evidence')
+    evidence['coverage']['source_tree'] = os.path.realpath(os.environ.get('VERIF_REPO', '/repo'))
+    os.makedirs(ev_dir, exist_ok=True)
+    with open(os.path.join(ev_dir, f'{pid}.json'), 'w') as f:
         json.dump(evidence, f, indent=1, sort_keys=True, default=str)
     for ln in lines:
         print(ln)
